@@ -236,6 +236,7 @@ class Direction:
         self.from_client = from_client
         self.hs = None            # Keys
         self.zero = None
+        self.zero_all = []        # every 0-RTT key seen (a client that starts afresh after a Retry derives a new one)
         self.app = []             # generations of 1-RTT keys
         self.gen = 0
         self.largest = {"i": -1, "h": -1, "a": -1}
@@ -248,6 +249,7 @@ class Observer:
         self.initial_dcid = None          # DCID of the client's first Initial (after Retry: the retry SCID)
         self.secrets_seen = set()
         self.secret_lines = []            # (ep, label, client_random, secret hex)
+        self.follow_retry = False         # set by the simulator in Retry runs: the client's Initial (and 0-RTT) keys change
 
     # -- key material ------------------------------------------------------
     def feed_keylog(self, ep, text, version):
@@ -268,6 +270,7 @@ class Observer:
                 d.hs = d.hs or ks
             elif "EARLY" in label:
                 d.zero = d.zero or ks
+                d.zero_all = d.zero_all + ks
             elif "TRAFFIC_SECRET_0" in label:
                 if not d.app:
                     d.app = [ks]
@@ -330,10 +333,19 @@ class Observer:
                 if d.from_client and self.initial_dcid is None:
                     self.initial_dcid = dcid
                 cands = [initial_keys(version, self.initial_dcid, d.from_client)] if self.initial_dcid else []
+                if self.follow_retry and d.from_client and self.initial_dcid is not None and bytes(dcid) != bytes(self.initial_dcid):
+                    # after a Retry the client protects its Initial packets with keys derived from the Retry's source CID,
+                    # which is the destination CID of the packet (RFC 9001 5.2)
+                    cands.append(initial_keys(version, dcid, True))
             elif ptype == "handshake":
                 cands = [k for k in (d.hs or []) if k.version == version] or self._rekey(d.hs, version)
             else:
-                cands = [k for k in (d.zero or []) if k.version == version] or self._rekey(d.zero, version)
+                # (a client that starts afresh after a Retry derives a second early secret: every one seen is a candidate)
+                zk = d.zero_all if self.follow_retry else (d.zero or [])
+                cands = [k for k in zk if k.version == version] or self._rekey(zk, version)
+                # aioquic keeps the 0-RTT keys it derived under the original version's labels when it moves on to the
+                # version negotiated compatibly and then writes that version into the header: also try the keys as fed
+                cands = cands + [k for k in zk if k.version != version]
             pkt = {"type": ptype, "ver": version, "dcid": dcid, "scid": scid, "token": token}
             mask_bits = 0x0F
         else:
@@ -388,8 +400,12 @@ class Observer:
                     # settle the suite
                     if ptype == "handshake":
                         d.hs = [k]
-                    elif ptype == "0rtt":
+                    elif ptype == "0rtt" and not self.follow_retry:
                         d.zero = [k]
+                    if ptype == "0rtt":
+                        pkt["zsecret"] = k.secret          # which early secret protects it (two exist after a Retry)
+                    elif ptype == "initial" and self.follow_retry and k is not cands[0]:
+                        self.initial_dcid = dcid
                     break
             if plain is None:
                 return pkt, end
@@ -411,6 +427,35 @@ class Observer:
         v = pkt["ver"]
         want = AESGCM(RETRY_KEY[v]).encrypt(RETRY_NONCE[v], b"", pseudo)
         return want == pkt["tag"]
+
+
+def long_header(data):
+    """The invariant fields of a long-header packet at the start of a datagram (RFC 8999, RFC 9000 17.2), as the
+    server application reads them before a connection exists; None when the bytes are not such a header."""
+    try:
+        r = Rd(data)
+        first = r.u8()
+        if not first & 0x80:
+            return None
+        version = struct.unpack(">I", r.take(4))[0]
+        dcid = r.take(r.u8())
+        scid = r.take(r.u8())
+        if version not in LONG_TYPES:
+            return {"type": "vn" if version == 0 else "unknown", "ver": version, "dcid": dcid, "scid": scid, "token": b""}
+        ptype = LONG_TYPES[version][(first >> 4) & 3]
+        token = r.take(r.var()) if ptype == "initial" else b""
+        return {"type": ptype, "ver": version, "dcid": dcid, "scid": scid, "token": token}
+    except IndexError:
+        return None
+
+
+def retry_packet(version, dcid, scid, odcid, token):
+    """RFC 9000 17.2.5, RFC 9001 5.8 (RFC 9369 3.3.3 for version 2)."""
+    tbits = {v: k for k, v in LONG_TYPES[version].items()}["retry"]
+    head = (bytes([0xC0 | (tbits << 4) | 0x05]) + struct.pack(">I", version) + bytes([len(dcid)]) + dcid
+            + bytes([len(scid)]) + scid + token)
+    pseudo = bytes([len(odcid)]) + odcid + head
+    return head + AESGCM(RETRY_KEY[version]).encrypt(RETRY_NONCE[version], b"", pseudo)
 
 
 # ---------------------------------------------------------------- encryptor
